@@ -113,9 +113,21 @@ type chainState struct {
 	pre []int
 }
 
-// keep retains a slice the library returned - the very slice, not a copy - for rendering.
+// keep retains a slice the library returned - the very slice, not a copy - for rendering.  THE CALLER
+// OWNS WHAT IT WAS GIVEN: once rendered (every renderer runs exactly once) the slice is written all
+// over - every element flipped, then its whole capacity overwritten through s[:0], as a caller that
+// recycles it as scratch does.  Later calls must not notice; the trace specification judges them.
 func keep[T intT](s []T, w string) func() []int {
-	return func() []int { return flat(s, w) }
+	return func() []int {
+		out := flat(s, w)
+		for i := range s {
+			s[i] = ^s[i]
+		}
+		for s = s[:0]; len(s) < cap(s); {
+			s = append(s, 0x5a)
+		}
+		return out
+	}
 }
 
 func flat[T intT](s []T, w string) []int {
